@@ -891,6 +891,13 @@ def _from_affine_apply(ex, F, vals, line):
         x, y = pt.fields["_Point__x"], pt.fields["_Point__y"]
         curve, order = pt.fields["_Point__curve"], pt.fields["_Point__order"]
         z = F.const(1)
+    elif is_pj(pt):
+        X, Y, Z = pt.fields["_PointJacobi__coords"]
+        ok = F.known_nonzero(Z.res)
+        ex.oblige_decided("%s#call(PointJacobi.from_affine)#requires-finite" % ex.cur_func, ok, "sympy", "Z may be 0", line, kind="call-requires")
+        x, y = FInt(F, X.res / Z.res ** 2, RED), FInt(F, Y.res / Z.res ** 3, RED)
+        curve, order = pt.fields["_PointJacobi__curve"], pt.fields["_PointJacobi__order"]
+        z = F.const(1)
     else:
         raise EngineLimit("from_affine of a non-affine object by contract")
     if ex.known_on_curve(x, y, z):
